@@ -768,7 +768,8 @@ class Run(RunBase):
                 jn = self.wd.jumpnetwork
                 vce = cluster.makeVacancyClusters(crys, self.wd.chem, ce)
                 ts = cluster.makeTSclusters(crys, self.wd.chem, jn, ce)
-                self._clusters = sorted((cl for grp in (ce, vce, ts) for s in grp for cl in s), key=str)
+                tsv = cluster.makeTSclusters(crys, self.wd.chem, jn, vce)     # vacancy AND transition-state clusters
+                self._clusters = sorted((cl for grp in (ce, vce, ts, tsv) for s in grp for cl in s), key=str)
             cl = self._clusters[rnd.randrange(len(self._clusters))]
             if what == "yaml:clustersite":
                 cs = cl.sites[rnd.randrange(len(cl.sites))]
